@@ -3,6 +3,7 @@ import PflDrv.FA
 import Pfl.Model.Regex
 import Pfl.Model.ToRegex
 import Pfl.Model.RegexToCFG
+import Pfl.Model.PyRegex
 import PflDrv.CFG
 open Lean Pfl
 namespace PflDrv
@@ -40,6 +41,44 @@ def rxSyms : Rx → List String
 
 def codeOf (tbl : List String) (s : String) : Nat :=
   ((tbl.zip (List.range tbl.length)).findSome? fun e => if e.1 = s then some e.2 else none).getD tbl.length
+
+def asChar (j : Json) : R Char := do
+  match (← asStr j).toList with
+  | [c] => pure c
+  | _ => throw "expected a one-character string"
+
+def asItem (j : Json) : R PyRx.Item := do
+  match ← asArr j with
+  | [k, a] => match ← asStr k with
+    | "c" => pure (.ch (← asChar a))
+    | "s" => pure (.short (← asChar a))
+    | _ => throw "bad set item"
+  | [k, a, b] => match ← asStr k with
+    | "r" => pure (.range (← asChar a) (← asChar b))
+    | _ => throw "bad set item"
+  | _ => throw "bad set item"
+
+partial def asPy (j : Json) : R PyRx.P := do
+  match ← asArr j with
+  | [k] => match ← asStr k with
+    | "dot" => pure .dot
+    | _ => throw "bad pattern"
+  | [k, a] => match ← asStr k with
+    | "lit" => pure (.lit (← asChar a))
+    | "short" => pure (.short (← asChar a))
+    | "star" => pure (.star (← asPy a))
+    | "plus" => pure (.plus (← asPy a))
+    | "opt" => pure (.opt (← asPy a))
+    | _ => throw "bad pattern"
+  | [k, a, b] => match ← asStr k with
+    | "cat" => pure (.cat (← asPy a) (← asPy b))
+    | "alt" => pure (.alt (← asPy a) (← asPy b))
+    | "set" => pure (.set (← asBool a) (← (← asArr b).mapM asItem))
+    | _ => throw "bad pattern"
+  | [k, a, m, n] => match ← asStr k with
+    | "rep" => pure (.rep (← asPy a) (← asNat m) (← asNat n))
+    | _ => throw "bad pattern"
+  | _ => throw "bad pattern"
 
 def rxHandle (op : String) (j : Json) : R Json := do
   match op with
@@ -84,6 +123,13 @@ def rxHandle (op : String) (j : Json) : R Json := do
     | none => throw "fuel"
     | some r => pure (Json.mkObj [("equiv", jBool r.isNone),
         ("word", jOpt (jList jStr) (r.map fun w => w.map fun k => tbl.getD k "?"))])
+  | "rx.py" =>   -- reference translation of the Python subset + its (verified) matcher
+    let p ← asPy (← field j "pattern")
+    let u ← asStr (← field j "universe")
+    let ss ← asStrList (← field j "strings")
+    let t := PyRx.desugar u.toList p
+    pure (Json.mkObj [("tree", jRx t),
+      ("matches", jList (fun (x : String) => jBool (t.matches (x.toList.map String.singleton))) ss)])
   | "rx.toCFG" =>   -- model of Regex.to_cfg
     let t ← asRx (← field j "tree")
     let start ← asStr (← field j "start")
